@@ -26,18 +26,17 @@ Print Assumptions C19_output_sends_not_self .
 (** transfer, all three argument forms: party i writes a frame to j only if (i,j) is a
     designated arc of the graph ... *)
 Theorem C19_transfer_sends_within_receivers :
-  forall (G : Graph) (i j : nat) (l : list nat),
-    wf G -> transfer_sends G i = Some l -> In j l -> arc G i j.
+  forall (G : Graph) (i j : nat), wf G -> In j (transfer_sends G i) -> arc G i j.
 Proof. exact transfer_sends_within_receivers. Qed.
 Print Assumptions C19_transfer_sends_within_receivers .
 
 (** ... so a party j that is nobody's designated receiver is sent nothing, whoever the sender *)
 Theorem C19_transfer_nonreceiver_silent :
   forall (G : Graph) (j : nat), wf G -> (forall i, ~ arc G i j) ->
-    (forall i l, transfer_sends G i = Some l -> ~ In j l) /\ transfer_recvs G j = [].
+    (forall i, ~ In j (transfer_sends G i)) /\ transfer_recvs G j = [].
 Proof.
   intros G j Hwf H. split.
-  - intros i l Hs Hj. apply (H i). eapply transfer_sends_within_receivers; eauto.
+  - intros i Hj. apply (H i). eapply transfer_sends_within_receivers; eauto.
   - apply transfer_nonreceiver. exact H.
 Qed.
 Print Assumptions C19_transfer_nonreceiver_silent .
@@ -46,6 +45,6 @@ Print Assumptions C19_transfer_nonreceiver_silent .
     {0:[2], 1:[2;0], 2:[]} addresses only 2 and 0 *)
 Example C19_nonvacuous :
   map (out_sends 5 3 [1; 4]) [0; 1; 2; 3; 4] = [[1]; [4]; [4]; [1; 4]; [1]] /\
-  map (transfer_sends (Dict [(0, [2]); (1, [2; 0]); (2, [])])) [0; 1; 2] = [Some [2]; Some [2; 0]; Some []] /\
+  map (transfer_sends (Dict [(0, [2]); (1, [2; 0]); (2, [])])) [0; 1; 2] = [[2]; [2; 0]; []] /\
   map (transfer_recvs (Dict [(0, [2]); (1, [2; 0]); (2, [])])) [0; 1; 2] = [[1]; []; [0; 1]].
 Proof. vm_compute. auto. Qed.
